@@ -313,9 +313,11 @@ impl BodyReader {
 
         let header_defined = Self::header_defined(http10, header_lookup)?;
 
-        // Implicitly we know that CloseDelimited means no header indicated that
-        // there was a body.
-        let has_body_header = header_defined != Self::CloseDelimited;
+        // A body is indicated by the presence of a content-length or transfer-encoding
+        // header. CloseDelimited alone does not tell: a transfer-encoding without a final
+        // chunked coding (or chunked on HTTP/1.0) is close delimited too.
+        let has_body_header = header_lookup("content-length").is_some()
+            || header_lookup("transfer-encoding").is_some();
 
         let has_no_body =
             // https://datatracker.ietf.org/doc/html/rfc2616#section-4.3
